@@ -73,6 +73,9 @@ Inductive case :=
 (* the code's lists, re-extracted from the source on every run *)
 Definition gen_cov : list str := signedHeaders.
 Definition gen_covh : list str := hmac_names SignatureHeaders.
+(* a long body written compactly by the driver: a prefix, then one byte repeated, [n] bytes in all *)
+Definition fill (p : str) (c : N) (n : N) : str := p ++ repeat c (N.to_nat n - length p).
+
 Definition loopback : str := [49;50;55;46;48;46;48;46;49]. (* "127.0.0.1" *)
 
 (* the received request as an upstream handler has it: Body non-nil, no fragment *)
